@@ -287,7 +287,17 @@ Section Step.
     end.
 
   (* Mul::dict_add_term_new *)
+  (* a term b**e arriving with an Integer exponent n is added as b with exponent e*n *)
+  Definition pow_int_term (t exp : expr) : option (expr * expr) :=
+    match t, exp with
+    | EPow tb te, ENum (NInt _) => Some (tb, te)
+    | _, _ => None
+    end.
+
   Definition step_datn (coef : number) (d : mdict) (exp t : expr) : res (number * mdict) :=
+    match pow_int_term t exp with
+    | Some (tb, te) => do e' <- rE (CMul te exp); rS (CDatn coef d e' tb)
+    | None =>
     let ins (_ : unit) : res (number * mdict) := Ok (coef, minsert t exp d) in
     match mlookup t d with
     | None =>
@@ -380,6 +390,7 @@ Section Step.
             end
         | _ => tail tt
         end
+    end
     end.
 
   (* Mul::power_num, self = Mul(sc, sd) *)
